@@ -500,6 +500,11 @@ func (g *Gen) genSC(op string) *world.SCAction {
 		if g.R.Intn(8) == 0 {
 			amt = new(big.Int).Lsh(big.NewInt(1), uint(64+g.R.Intn(100)))
 		}
+		if g.R.Intn(8) == 0 {
+			// holdings at byte-length and word boundaries
+			amt = new(big.Int).Lsh(big.NewInt(1), []uint{8, 16, 32, 63, 64}[g.R.Intn(5)])
+			amt.Add(amt, big.NewInt(int64(g.R.Intn(3)-1)))
+		}
 		a.Amount = amt.String()
 	case "setrole-again":
 		var who []string
